@@ -39,25 +39,10 @@ def error_partitions(F, b):
 def run(chk, tier):
     F = lib.get_facts()
     cg = F.callgraph()
-    chk.rule("R08.1", "has_impl / coalesce_impl partition CelError into exactly {Binding, Attribute} (absent) vs everything else (propagated)")
+    chk.rule("R08.1", "has / coalesce partition CelError into exactly {Binding, Attribute} (absent) vs everything else (propagated) - decided on the symbolic decision tables of R08.4")
     chk.rule("R08.2", "only the frozen set of sites may construct a Binding / Attribute error (nothing else can be mistaken for absence)")
     chk.rule("R08.3", "has/coalesce are run-time macros only: not in the compile-time macro table (absence is not decidable at compile time)")
-    for fn in ("has::has_impl", "coalesce::coalesce_impl"):
-        b = F.body("rscel::context::default_macros::" + fn)
-        parts = error_partitions(F, b)
-        if len(parts) != 1:
-            chk.bad("R08.1", fn, "%s must classify the error of its argument with one switch on the CelError variant; found %d (widened to all errors, or moved)" % (fn, len(parts)), b.file)
-            continue
-        cases, same, other_differs, blk = parts[0]
-        if cases == ABSENT and same and other_differs:
-            chk.ok("R08.1", fn, {"absent_class": sorted(cases), "switch_block": blk})
-        else:
-            chk.bad("R08.1", fn, "%s treats %s as absent (expected exactly %s, one shared arm, distinct propagate arm)" % (fn, sorted(cases), sorted(ABSENT)), b.file)
-        # evaluation of the argument goes through run_raw (so nested paths / macro bodies behave the same)
-        if any(c.endswith("Interpreter::<'a>::run_raw") for c in common.callees_of(b)):
-            chk.ok("R08.1", fn + "|evaluates via run_raw")
-        else:
-            chk.bad("R08.1", fn + "|evaluates via run_raw", "argument no longer evaluated by run_raw", b.file)
+    # (the partition {Binding, Attribute} vs everything else is decided on the decision tables of R08.4, wherever the match is written)
     # R08.2
     for b in F.bodies.values():
         if b.pkg != "rscel":
@@ -98,24 +83,34 @@ def run(chk, tier):
                 return [(st, symex.U("r%d" % n, "std::result::Result<rscel::types::cel_value::CelValue, rscel::types::cel_error::CelError>"))]
             return None
 
+    def facts_of(st, origin):
+        """(positive variant or None, set of excluded variants) the path knows about the value named `origin`"""
+        pos, neg = None, set()
+        for c in st.cond:
+            if c[0] == "variant" and c[3] == origin:
+                pos = c[2]
+            elif c[0] == "variant-not" and c[3] == origin:
+                neg |= set(c[2])
+        return pos, neg
+
     def outcome_class(st, n):
         """class of the n-th evaluation on this path: 'val' | 'null' | 'absent' | 'fail' | None (not constrained)"""
-        res = None
-        for c in st.cond:
-            if c[0] not in ("variant", "variant-not"):
-                continue
-            if c[3] == "r%d" % n and c[0] == "variant":
-                res = "ok?" if c[2] == "Ok" else "err?"
-            elif c[3] == "r%d.Ok.0" % n:
-                res = "null" if (c[0] == "variant" and c[2] == "Null") else ("val" if c[0] == "variant-not" and tuple(c[2]) == ("Null",) else "val?")
-            elif c[3] == "r%d.Err.0" % n:
-                if c[0] == "variant" and c[2] in ("Binding", "Attribute"):
-                    res = "absent"
-                elif c[0] == "variant-not" and set(c[2]) == {"Binding", "Attribute"}:
-                    res = "fail"
-                else:
-                    res = "err-partition?%s" % (c[2],)
-        return res
+        rp, _ = facts_of(st, "r%d" % n)
+        if rp == "Ok":
+            vp, vn = facts_of(st, "r%d.Ok.0" % n)
+            if vp == "Null":
+                return "null"
+            if vp is not None or "Null" in vn:
+                return "val"
+            return "ok?"
+        if rp == "Err":
+            ep, en = facts_of(st, "r%d.Err.0" % n)
+            if ep in ("Binding", "Attribute"):
+                return "absent"
+            if ep is not None or {"Binding", "Attribute"} <= en:
+                return "fail"
+            return "err?"
+        return None
 
     cb = F.body("rscel::context::default_macros::coalesce::coalesce_impl")
     for nargs in (0, 1, 2, 3):
@@ -171,14 +166,11 @@ def run(chk, tier):
     goth = {}
     for st, r in outs:
         runs = [e for e in st.trace if e[0] == "run"]
-        cl = None
-        for c in st.cond:
-            if c[0] == "variant" and c[3] == "r0":
-                cl = "ok" if c[2] == "Ok" else "err?"
-            if c[3] == "r0.Err.0":
-                cl = "absent" if (c[0] == "variant" and c[2] in ("Binding", "Attribute")) else ("fail" if c[0] == "variant-not" and set(c[2]) == {"Binding", "Attribute"} else "err?%s" % (c[2],))
-            if c[3] == "r0.Ok.0":
-                cl = "ok-inspected:%s" % (c[2],)
+        cl = outcome_class(st, 0)
+        if cl == "ok?":
+            cl = "ok"
+        elif cl in ("val", "null"):
+            cl = "ok-inspected:" + cl
         goth[cl] = (symex.render(r), [e[2] for e in runs], set(e[3] for e in runs))
     wanth = {"ok": "CelValue::true_()", "absent": "CelValue::false_()", "fail": "CelValue::from_err(r0.Err.0)"}
     if set(goth) == set(wanth) and all(goth[k][0] == v and goth[k][1] == ["b0"] and goth[k][2] == {"ctx"} for k, v in wanth.items()):
